@@ -279,7 +279,102 @@ def replay_b(case):
     return False, "requested %s, start %s dt %s: one draw per (X, t)" % (sub, spec[0], spec[1])
 
 
+# ------------------------------------------------------------------ part D: scenario cache reset after a session
+
+D_HISTORIES = [["session", "edit_k", "reset", "run"], ["edit_k", "session", "edit_c", "reset", "run"],
+               ["session", "edit_k", "session", "run"], ["run", "session", "edit_c", "run"], ["session", "session", "edit_k", "reset", "run"],
+               ["session_set", "edit_k", "reset", "run"]]
+
+
+def run_part_d(hist, mode, env=None):
+    """a scenario of a registered manager; edits through the modelling API on the scenario's own model; after 'run' the
+    batch results must be those of a fresh model with the final definitions -> (got, want)"""
+    import BPTK_Py
+    from checks import scen
+    env = env or {}
+    b = BPTK_Py.bptk()
+    b.register_scenario_manager({"smD": {"model": scen.base_model(0.0, 3.0, 1.0, name="c08d")}})
+    b.register_scenarios(scenario_manager="smD", scenarios={"A": {}})
+    sc = b.scenario_manager_factory.scenario_managers["smD"].scenarios["A"]
+    consts, n = {}, 0
+
+    def lit(name):
+        return S.SymLit(name) if mode == "sym" else float(env.get(name, _default(name)))
+
+    def ref(name):
+        return S.v(name) if mode == "sym" else float(env.get(name, _default(name)))
+    got = None
+    for op in hist:
+        n += 1
+        if op in ("session", "session_set"):
+            st = {}
+            if op == "session_set":
+                st = {"smD": {"A": {"constants": {"c": scen.sym_const("ds%d" % n) if mode == "sym" else ref("ds%d" % n)}}}}
+                consts["c"] = ref("ds%d" % n)
+            b.begin_session(scenarios=["A"], scenario_managers=["smD"], equations=scen.EQS, settings=st)
+            b.run_step()
+            b.run_step()
+            b.end_session()
+        elif op in ("edit_k", "edit_c"):
+            name = op[-1]
+            consts[name] = ref("de%d" % n)
+            sc.model.constant(name).equation = lit("de%d" % n)
+        elif op == "reset":
+            b.reset_scenario_cache(scenario_manager="smD", scenario="A")
+        elif op == "run":
+            df = b.run_scenarios(scenarios=["A"], scenario_managers=["smD"], equations=scen.EQS, return_format="df")
+            got = scen.from_df(df, "smD", "A")
+    want = scen.fresh_results(0.0, 3.0, 1.0, consts, {})
+    return got, want
+
+
+def check_part_d(hist, timeout_s):
+    from checks import scen
+
+    def run():
+        try:
+            return ("ok",) + run_part_d(hist, "sym")
+        except Exception as e:
+            return ("exc", e)
+    try:
+        paths = S.explore(run, max_paths=8)
+    except (S.PathCapExceeded, S.SolverUnknown, S.SymbolicEscape) as e:
+        return "unknown", "explore: %r" % (e,)
+    for p in paths:
+        if p.exc is not None:
+            return "unknown", "harness: %r" % (p.exc,)
+        if p.out[0] == "exc":
+            return "violated", {"_what": "raised %r" % (p.out[1],)}
+        got, want = p.out[1], p.out[2]
+        for e in scen.EQS:
+            if got.get(e) is None or sorted(got[e]) != sorted(want[e]):
+                return "violated", {"_what": "equation %s: grid %s" % (e, None if got.get(e) is None else sorted(got[e]))}
+            for t in want[e]:
+                v = solve.prove_equal(S.term_of(got[e][t]), S.term_of(want[e][t]), p.pc, timeout_s=timeout_s)
+                if v.status == "violated":
+                    info = solve.complete_model(v.model, S.term_of(got[e][t]), S.term_of(want[e][t]))
+                    info["_what"] = "%s(%s) is not what a fresh model with the final definitions yields" % (e, t)
+                    return "violated", info
+                if v.status == "unknown":
+                    return "unknown", v.detail
+    return "holds", None
+
+
+def replay_d(case):
+    from checks import scen
+    for env in (case.get("env", {}), {}):
+        got, want = run_part_d(case["hist"], "float", env)
+        for e in scen.EQS:
+            for t in want[e]:
+                a, b_ = float(got[e][t]), float(want[e][t])
+                if abs(a - b_) > 1e-9 * (1 + abs(b_)):
+                    return True, "scenario history %s: %s(%s) = %r, a fresh model with the final definitions gives %r" % (case["hist"], e, t, a, b_)
+    return False, "scenario history %s: results are those of the final definitions" % (case["hist"],)
+
+
 def replay(case):
+    if case.get("kind") == "d":
+        return replay_d(case)
     if case.get("kind") == "b":
         return replay_b(case)
     if case.get("kind") == "sched":
@@ -356,6 +451,14 @@ def run(tier):
             if len(samples) < 6 and (len(h) >= 2 or st != "holds"):
                 samples.append({"history": h, "verdict": st})
         nb, bad_b = check_part_b(_G["timeout"])
+        bad_d = []
+        for hd in D_HISTORIES:
+            st, info = check_part_d(hd, _G["timeout"])
+            counts[st] += 1
+            if st == "violated":
+                bad_d.append((hd, info))
+            elif st == "unknown":
+                rep.inconcl("scenario history %s: %s" % (hd, info))
         rep.canary("equation-setter-keeps-cache", canary_equation_setter_keeps_cache())
     finally:
         stubs.restore()
@@ -369,6 +472,9 @@ def run(tier):
         env = {k: float(v) for k, v in info.items() if isinstance(v, (Fraction, int, float)) and not isinstance(v, bool)}
         rep.candidate(sig, {"hist": [list(x) for x in h], "env": env, "entry": info.get("_entry", "evaluate")},
                       "history %s (memo filled through %s) after op %s: %s" % (h, info.get("_entry", "evaluate"), i, info.get("_what")))
+    for hd, info in bad_d[:2]:
+        env = {k: float(v) for k, v in info.items() if isinstance(v, (Fraction, int, float)) and not isinstance(v, bool)}
+        rep.candidate("stale:scenario:%s" % "-".join(hd[:-1][-2:]), {"kind": "d", "hist": hd, "env": env}, "scenario history %s: %s" % (hd, info.get("_what")))
     seen_b = set()
     for sub, spec, what in bad_b:
         sig = "ambiguous:sequential" + ("" if spec == B_SPECS[0] else ":dt=%g" % spec[1])
@@ -381,7 +487,8 @@ def run(tier):
     sched = c08_sched.run_part(rep, tier)
     rep.assume("part A: 7-element model (3 constants, converter, flow, stock, sum); every edit writes a fresh symbol; histories exhaustive to length 2 (+ eval-first length 3); the memo is filled before the edits through each of 4 entry points (evaluate_equation, element(t), memoize, Element.plot)",
                "part B: random.* replaced by a fresh-symbol stub; worker threads joined one by one (deterministic thread stub); run specs %s" % (B_SPECS,),
-               "part C: 2 threads, source-line granularity, schedule length bound; see evidence.sched")
+               "part C: 2 threads, source-line granularity, schedule length bound; see evidence.sched",
+               "part D: %d histories of session / edit through the modelling API / scenario cache reset / batch run on a registered scenario" % len(D_HISTORIES))
     rep.coverage.update({"states": len(hs) + nb + sched.get("states", 0), "transitions": max(1, counts["holds"] + nb - len(bad_b) + sched.get("transitions", 0)),
                          "traces_validated_against_impl": len(seen) + sched.get("replayed", 0),
                          "samples": samples + sched.get("samples", []), "verdicts": counts, "part_b_orderings": nb, "sched": sched,
